@@ -290,7 +290,7 @@ func TestVerifC21(t *testing.T) { //nolint:cyclop,gocognit,maintidx
 		viol := func(sig, what string) { run.Violation(sig, label+": "+what, i, detail) }
 
 		if n := gateViol.Load(); n > 0 {
-			viol("gracefulclose-returned-while-ice-handler-running",
+			viol("gracefulclose-returned-while-ice-handler-running:"+c.point,
 				fmt.Sprintf("%d GracefulClose call(s) returned while an OnICEConnectionStateChange invocation (a goroutine started by the connection) was still in flight", n))
 		}
 		run.Count("ice_handler_invocations_blocked_during_close", int(gateA.blocked.Load()+gateB.blocked.Load()))
@@ -341,7 +341,7 @@ func TestVerifC21(t *testing.T) { //nolint:cyclop,gocognit,maintidx
 			continue
 		}
 		if n := gateViol.Load(); n >= 100 {
-			viol("gracefulclose-returned-while-ice-handler-running:after-close",
+			viol("gracefulclose-returned-while-ice-handler-running:after-close:"+c.point,
 				"a GracefulClose issued after the closers had returned came back while an OnICEConnectionStateChange invocation was still in flight")
 		}
 		// state stays closed; handler sequence has nothing after the first closed
